@@ -33,7 +33,7 @@ type handle struct {
 }
 
 func Run(k *report.Check) {
-	k.Rule = "every history up to the depth over {put, delete, Checkpoint+wait, keep-only-newest / keep-two-newest retention update, restore from a retained handle into the same directory (as a redeployed operator does) or a new one and continue, hold / release+quiesce background work} under tiny option sets; the storage layer snapshots the file set after every mutating operation. For every retained handle and every such snapshot taken after the handle was returned (crash = abandon the process there) a fresh dkv.Open on a copy of the snapshot must not panic, must show exactly the map captured at the Checkpoint call (full scan, prefix scans, point gets) and must accept new writes (enough to rotate and flush) and read them back; every history ends with a quiescent final checkpoint that is probed the same way. non-trivial = distinct (file set, handle) probes taken after at least one later write, flush, compaction, checkpoint, retention update or restore"
+	k.Rule = "schedule part (scheduler build): three histories in which Checkpoint is called while flushes / a compaction are in flight, every schedule within the delay bound; the handle restored after everything came to rest must show the map at the Checkpoint call. History part: every history up to the depth over {put, delete, Checkpoint+wait, keep-only-newest / keep-two-newest retention update, restore from a retained handle into the same directory (as a redeployed operator does) or a new one and continue, hold / release+quiesce background work} under tiny option sets; the storage layer snapshots the file set after every mutating operation. For every retained handle and every such snapshot taken after the handle was returned (crash = abandon the process there) a fresh dkv.Open on a copy of the snapshot must not panic, must show exactly the map captured at the Checkpoint call (full scan, prefix scans, point gets) and must accept new writes (enough to rotate and flush) and read them back; every history ends with a quiescent final checkpoint that is probed the same way. non-trivial = distinct (file set, handle) probes taken after at least one later write, flush, compaction, checkpoint, retention update or restore"
 	k.Assumptions = []string{"a crash loses nothing that a storage operation had completed (MemoryFilesystem has no torn writes)", "garbage collection is switched off during an execution: cleanup-driven deletion is C09's subject", "background work is quiescent or held in this tier"}
 	k.Budget(150, 1500)
 	cfgs := []dkvh.Options{{Mem: 30, Table: 40, L0: 2, Smallest: 4500, Ampl: 50}, {Mem: 50, Table: 80, L0: 1, Smallest: 4500, Ampl: 50},
@@ -41,6 +41,9 @@ func Run(k *report.Check) {
 	if k.Thorough() {
 		cfgs = dkvh.Configs(false)
 	}
+	k.Parts(2)
+	sb := k.Pick(1, 2)
+	k.ExploreSched(fmt.Sprintf("sched/checkpoint-during-flush,delays<=%d", sb), mc.Config{Bound: sb, Deadline: k.Within(0.25)}, schedParams{}, schedBody)
 	p := params{depth: k.Pick(5, 6), cfgs: cfgs}
 	k.ExploreProc(fmt.Sprintf("history+crash/d=%d", p.depth), mc.Config{}, p, body)
 }
